@@ -200,6 +200,24 @@ def gen_case(rng, ctx) -> Dict:
             s["own_fill"] = rng.random() < 0.5
         specs.append(s)
         tfs.append(tf)
+    if rng.random() < 0.35:
+        # a sibling: same kind, same parameters, same timeframe, another input and another name - a helper series
+        # named after anything less than the member's full name would be shared between the two
+        k = rng.randrange(len(specs))
+        if rng.random() < 0.6:
+            # ... of a kind that keeps helper series (sub-indicators or a managed "<name>_data" series)
+            s = X.gen_spec(rng, rng.choice(["RSI", "STDEV", "VWAP", "MACD", "KC", "BBANDS", "STOCH", "SUPERTREND", "ADX", "TSI",
+                                            "HMA", "STDEVTHRES", "RSI", "STDEV"]), inputs=("close", "high"))
+            s["fullname"] = f"M{len(specs)}_{s['kind']}"
+            specs.append(s)
+            tfs.append(tfs[k])
+            k = len(specs) - 1
+        sib = copy.deepcopy(specs[k])
+        if sib["kind"] != "COUNTER" and "input_value" in sib["kw"]:
+            sib["kw"]["input_value"] = "close" if sib["kw"]["input_value"] == "high" else "high"
+        sib["fullname"] = f"M{len(specs)}_{sib['kind']}_sib"
+        specs.append(sib)
+        tfs.append(tfs[k])
     init_n = rng.choice([0, 1, n, rng.randint(0, n)])
     rest = rows[init_n:]
     chunks, i = [], 0
